@@ -822,8 +822,28 @@ def run_job(job):
 
 
 def build_jobs(thorough):
+    """Work units in execution order: the small directed families first, then the big products (a deadline cuts the tail)."""
     jobs = []
     na = len(ATOMS)
+    jobs.append(('limits', ()))
+    for sv in (R.BASE, R.WITNESS_V0):
+        for opcode in (0xae, 0xaf):
+            jobs.append(('multisig', (sv, opcode)))
+        jobs.append(('multisig_big', (sv,)))
+        jobs.append(('sigenc', (sv,)))
+        jobs.append(('scriptcode', (sv,)))
+    jobs.append(('tapsig', ()))
+    jobs.append(('locktime', ()))
+    nw = len(witness_cases())
+    for lo in range(0, nw, 16):
+        jobs.append(('witness', (lo, min(nw, lo + 16))))
+    for lo in range(0, na, 16):
+        jobs.append(('wrap', (lo, min(na, lo + 16))))
+    for lo in range(0, len(NUM_OPS), 4):
+        jobs.append(('arith', (lo, min(len(NUM_OPS), lo + 4))))
+    for length in range(1, 5):
+        for first in range(len(COND_SYMS)):
+            jobs.append(('cond', (COND_SYMS, length, first)))
     cfgs = [(R.BASE, 0), (R.BASE, STANDARD), (R.BASE, MANDATORY), (R.WITNESS_V0, 0), (R.WITNESS_V0, STANDARD),
             (R.TAPSCRIPT, 0), (R.TAPSCRIPT, STANDARD)]
     step = 4 if thorough else 16
@@ -835,31 +855,11 @@ def build_jobs(thorough):
         for sv in ALL_SV:
             for lo in range(0, na, 64):
                 jobs.append(('flags', (sv, fl, 'flag', lo, min(na, lo + 64))))
-    for length in range(1, 5):
-        for first in range(len(COND_SYMS)):
-            jobs.append(('cond', (COND_SYMS, length, first)))
     if thorough:
         for first in range(len(COND_SYMS)):
             jobs.append(('cond', (COND_SYMS, 5, first)))
         for first in range(len(COND_SYMS_SMALL)):
             jobs.append(('cond', (COND_SYMS_SMALL, 6, first)))
-    for lo in range(0, len(NUM_OPS), 4):
-        jobs.append(('arith', (lo, min(len(NUM_OPS), lo + 4))))
-    jobs.append(('limits', ()))
-    for sv in (R.BASE, R.WITNESS_V0):
-        for opcode in (0xae, 0xaf):
-            jobs.append(('multisig', (sv, opcode)))
-        jobs.append(('multisig_big', (sv,)))
-        jobs.append(('sigenc', (sv,)))
-        jobs.append(('scriptcode', (sv,)))
-    jobs.append(('tapsig', ()))
-    jobs.append(('locktime', ()))
-    for lo in range(0, na, 16):
-        jobs.append(('wrap', (lo, min(na, lo + 16))))
-    nw = len(witness_cases())
-    for lo in range(0, nw, 16):
-        jobs.append(('witness', (lo, min(nw, lo + 16))))
-    if thorough:
         for sv, fl in ((R.BASE, 0), (R.BASE, STANDARD), (R.WITNESS_V0, STANDARD), (R.TAPSCRIPT, STANDARD)):
             for lo in range(na):
                 jobs.append(('pairs', (sv, fl, 'flag', lo, lo + 1)))
